@@ -89,7 +89,7 @@ Definition is_failed (st : rstate) : bool :=
 Definition mon_next (c : ctx) (m : mon) (o : out) : mon :=
   match o with
   | OReady => mkMon (m_live m) (m_cur m) (if ctx_ready c then false else m_owes m) (m_synced m) (ctx_ready c)
-  | OTimer _ => m
+  | OTimer _ _ => m
   | OX e r =>
     match emitted e r with
     | Some st => mkMon (m_live m) (add_em (m_cur m) st) (m_owes m) (m_synced m) (m_ready m)
@@ -237,3 +237,134 @@ Fixpoint end_trace (m : mon) (tr : list item) : string :=
   end.
 
 Definition end_ok (tr : list item) : bool := is_empty (end_trace mon_init tr).
+
+(* ---- the observer: what the scheduler may think, derived from the traffic ------------ *)
+
+(* A second monitor that never looks at the client's private fields.  From
+   the Synchronize traffic alone (requests as received by the scheduler,
+   replies as sent by it, the clock, and whether the client's timer or an
+   update ended its select) it keeps
+     b_next  : the time at which the scheduler expects the next Synchronize
+               (last valid next_synchronization_at it sent; the client may
+               only bring it forward to "now" when it has an update to send);
+     b_bound : until when the scheduler may think this worker is executing:
+               any Synchronize that went out may have handed out an action
+               (the reply can be lost in transit or be rejected locally), so
+               it sets the bound to b_next + grace unless one is already
+               running; a reply that was accepted as "execute", or as "no
+               change" to a request that said executing, renews it from the
+               new next_synchronization_at; only an accepted "idle", or an
+               accepted "no change" to a request that did not say executing,
+               ends it. *)
+Record obm := mkObm {
+  b_next : Z;
+  b_bound : option Z;
+  b_exec : bool;               (* the request of this Run said executing (not completed) *)
+  b_synced : bool;
+  b_ready : bool }.
+
+Definition obm_init (t0 : Z) : obm := mkObm t0 None false false false.
+Definition obm_begin (b : obm) : obm := mkObm (b_next b) (b_bound b) false false false.
+
+Definition is_executing (st : rstate) : bool :=
+  match st with
+  | RExec _ (StDone _ _) => false
+  | RExec _ _ => true
+  | RIdle => false
+  end.
+
+Definition ctx_reply (c : ctx) : option reply :=
+  match k_ev c with ERun r => Some (r_reply r) | EExec _ => None end.
+
+Definition obm_next (c : ctx) (b : obm) (o : out) : obm :=
+  match o with
+  | OReady => mkObm (b_next b) (b_bound b) (b_exec b) (b_synced b) (ctx_ready c)
+  | OTimer _ fired =>
+    if fired then b
+    else mkObm (Z.min (b_next b) (ctx_now c)) (b_bound b) (b_exec b) (b_synced b) (b_ready b)
+  | OSync st _ _ =>
+    mkObm (b_next b)
+          (match b_bound b with None => Some (b_next b + grace_ms) | Some u => Some u end)
+          (is_executing st) true (b_ready b)
+  | ORet _ _ =>
+    if b_synced b then
+      match ctx_reply c with
+      | Some (Reply (Some ts) ds) =>
+        match ds with
+        | DExec _ => mkObm ts (Some (ts + grace_ms)) (b_exec b) (b_synced b) (b_ready b)
+        | DIdle => mkObm ts None (b_exec b) (b_synced b) (b_ready b)
+        | DNone => mkObm ts (if b_exec b then Some (ts + grace_ms) else None) (b_exec b) (b_synced b) (b_ready b)
+        | DExecBad | DUnknown => mkObm ts (b_bound b) (b_exec b) (b_synced b) (b_ready b)
+        end
+      | _ => b
+      end
+    else b
+  | _ => b
+  end.
+
+Definition ochk := ctx -> obm -> out -> string.
+
+(* (a) mayTerminate during shutdown only once the observed bound is gone or past *)
+Definition ochk_terminate : ochk := fun c b o =>
+  match o with
+  | ORet true _ =>
+    if ctx_shutdown c
+    then match b_bound (obm_next c b o) with
+         | None => ""
+         | Some u => if (u <? ctx_now c)%Z then "" else "terminates-before-observed-bound-has-passed"
+         end
+    else ""
+  | _ => ""
+  end%string.
+
+(* (b) an idle worker solicits work only when the scheduler cannot think it is
+   executing and readiness was just checked *)
+Definition ochk_solicit : ochk := fun c b o =>
+  match o with
+  | OSync RIdle false _ =>
+    if is_some (b_bound b) then "solicits-work-while-scheduler-may-think-executing"
+    else if negb (b_ready b) then "solicits-work-without-readiness-check"
+    else ""
+  | _ => ""
+  end%string.
+
+Definition ochk_all : ochk := fun c b o => cat2 (ochk_terminate c b o) (ochk_solicit c b o).
+
+(* (c) the client's own field never promises less than the observed bound *)
+Definition rejected_reply (c : ctx) : bool :=
+  match ctx_reply c with
+  | Some (Reply None _) | Some (Reply _ DExecBad) | Some (Reply _ DUnknown) => true
+  | _ => false
+  end.
+
+Definition ochk_end (c : ctx) (b : obm) : string :=
+  match b_bound b with
+  | None => ""
+  | Some u =>
+    match o_until (k_obs c) with
+    | None => if rejected_reply c then "until-not-extended-after-rejected-reply"
+              else "until-nil-while-scheduler-may-think-executing"
+    | Some v => if (v <? u)%Z then "until-earlier-than-observed-bound" else ""
+    end
+  end%string.
+
+Fixpoint obm_outs (c : ctx) (b : obm) (outs : list out) : obm :=
+  match outs with [] => b | o :: r => obm_outs c (obm_next c b o) r end.
+
+Fixpoint ochk_outs (c : ctx) (b : obm) (outs : list out) : string :=
+  match outs with
+  | [] => ""
+  | o :: r => cat2 (ochk_all c b o) (ochk_outs c (obm_next c b o) r)
+  end.
+
+Fixpoint ochk_trace (b : obm) (tr : list item) : string :=
+  match tr with
+  | [] => ""
+  | it :: r =>
+    let c := ctx_of it in
+    let b0 := obm_begin b in
+    let b' := obm_outs c b0 (i_outs it) in
+    cat2 (ochk_outs c b0 (i_outs it)) (cat2 (ochk_end c b') (ochk_trace b' r))
+  end.
+
+Definition observer_ok (t0 : Z) (tr : list item) : bool := is_empty (ochk_trace (obm_init t0) tr).
